@@ -4,6 +4,8 @@ CONSTANTS
   SpecSet = {"s0", "s1", "s2", "sP", "sH"}
   MaxTouch = 1
   UserFiles = {"notes.txt", "zz_user.go"}
+  DneSet = {TRUE}
+  GuardedRemove = FALSE
 INVARIANT DirMatchesLast
 PROPERTY UserUntouched
 PROPERTY Idempotent
